@@ -77,24 +77,26 @@ P["C05"] = {
         {"pattern": "verifHarness_C05_", "label_filter": "C05:"},
         {"pattern": "verifHarness_C13_", "label_filter": "C05:"},
         {"pattern": "verifHarness_C0304_(width|fit|indir)", "label_filter": "C05:"},
-        {"pattern": "verifHarness_C10_bank_step", "label_filter": "C05:"}]},
+        {"pattern": "verifHarness_C10_bank_step", "label_filter": "C05:"},
+        {"pattern": "verifHarness_C06_array_later_block_count", "label_filter": "C05:"}]},
     "thorough": {"validate": 8, "runs": [
         {"pattern": "verifHarness_C10_bank_step", "label_filter": "C05:"},
+        {"pattern": "verifHarness_C06_array_later_block_count", "label_filter": "C05:"},
         {"pattern": "verifHarness_C05_", "label_filter": "C05:"},
         {"pattern": "verifHarness_C13_", "label_filter": "C05:"},
         {"pattern": "verifHarness_C0304_", "label_filter": "C05:"},
         {"pattern": "verifHarness_C0102_", "label_filter": "C05:"}]},
-    "bounds": "matrix: 18 schemas (null, boolean, int, long, float, double, bytes, string, fixed of size 0/1/4/16, record, enum, array<long>, map<long>, [null,long], [string,null]) x 42 Go kinds (bool, int8..int64, uint..uint64, uintptr, float32/64, complex64/128, string, []byte, [n]byte for n in 0,1,3,4,5,15,16,17, [4]int8, []int64/[]int16/[]int8, [2]int64, map[string]int64/int16, map[int]int64, structs, *int64/*int16, any, chan, func, unsafe.Pointer) x 4 positions (field, pointer, slice element, map value) = 3024 pairs; each pair that builds decodes an encoding of an arbitrary datum of the schema (every value symbolic, full-width ints, a boolean is any wire byte 0..255, strings <= 2, arrays <= 2, maps <= 1) into a struct whose field is surrounded by 2-byte guards plus a sibling field not in the schema; asserted: guards and sibling unchanged, and (engine-implicit, strict heap typing on) every store inside the destination object, pointers only into pointer words and scalars never into them, only 0 or 1 into a bool; building never panics; plus one ResourceBank.Alloc / Close step from an arbitrary bank state satisfying the representation invariant (harness C10_bank_step: the slot handed out lies inside the arena's array)",
+    "bounds": "matrix: 26 schemas (null, boolean, int, long, float, double, bytes, string, fixed of size 0/1/4/16, record, enum, array<long>, map<long>, [null,long], [string,null], three general unions, and the bare type names array / map / fixed / record / union without their attributes) x 42 Go kinds (bool, int8..int64, uint..uint64, uintptr, float32/64, complex64/128, string, []byte, [n]byte for n in 0,1,3,4,5,15,16,17, [4]int8, []int64/[]int16/[]int8, [2]int64, map[string]int64/int16, map[int]int64, structs, *int64/*int16, any, chan, func, unsafe.Pointer) x 4 positions (field, pointer, slice element, map value) = 3024 pairs; each pair that builds decodes an encoding of an arbitrary datum of the schema (every value symbolic, full-width ints, a boolean is any wire byte 0..255, strings <= 2, arrays <= 2, maps <= 1) into a struct whose field is surrounded by 2-byte guards plus a sibling field not in the schema; asserted: guards and sibling unchanged, and (engine-implicit, strict heap typing on) every store inside the destination object, pointers only into pointer words and scalars never into them, only 0 or 1 into a bool; building never panics; plus one ResourceBank.Alloc / Close step from an arbitrary bank state satisfying the representation invariant (harness C10_bank_step: the slot handed out lies inside the arena's array)",
     "outside": "that a built decoder stores the *right* value (C03/C13); Go kinds not listed; more than one schema field",
     "assumptions": A_CORE,
 }
 P["C06"] = {
-    "common": {"validate": 4, "runs": [
+    "common": {"validate": 4, "max_paths": 150000, "runs": [
         {"pattern": "verifHarness_C06_"},
         {"pattern": "verifHarness_C18_nopanic", "label_filter": "C18:"}]},
-    "thorough": {"validate": 12},
-    "bounds": "(a) record bodies: every byte string of length 0..4 (thorough 0..6) offered to Read and to Skip (empty target struct) of the codecs of 34 catalogue types, of all 18 C05 schemas (alone and as array items) through the skip path, and of 44 (Go kind x position) targets x 18 schemas through the read path; asserted on every path: no panic, every loop within 2n+8 iterations (termination, work proportional to input), every input-controlled allocation <= n+4 elements. (b) containers: every byte string of length 0..9 (thorough 0..12) as a file, and a valid header of each codec variant (none, null, deflate, snappy, codec entry first) followed by every byte string of length 0..5 (thorough 0..8), with loop bound 2n+40 and input-controlled allocations <= 2n+16. (c) timestamp text: every string of 0..40 bytes through time.StringCodec.Read (C18_nopanic)",
-    "outside": "the JSON tokenizer on arbitrary schema text (library code, stubbed); allocation inside the real flate/snappy decoders; longer inputs - but every length / count / selector decision of the code is reached within these lengths",
+    "thorough": {"validate": 12, "max_paths": 1000000},
+    "bounds": "(a) record bodies: every byte string of length 0..4 (thorough 0..6) offered to Read and to Skip (empty target struct) of the codecs of 34 catalogue types, of all 18 C05 schemas (alone and as array items) through the skip path, and of 44 (Go kind x position) targets x 18 schemas through the read path; asserted on every path: no panic, every loop within 2n+8 iterations (termination, work proportional to input), every input-controlled allocation <= n+4 elements. (c) single-field mutations of valid encodings: for 5 (thorough 10) schema/target pairs covering every structural varint of the encoding (string / bytes / map-key length, block count, block byte size, nullable and general union selector, terminator), read and skip path, collections sent as two plain or size-prefixed blocks, ONE structural varint replaced by any value in -64..63, any two-byte value, MaxInt64-65535..MaxInt64 or MinInt64..MinInt64+65535; and a later array block declaring ANY int64 count after a block that already produced items. Same assertions. (b) containers: every byte string of length 0..9 (thorough 0..12) as a file, and a valid header of each codec variant (none, null, deflate, snappy, codec entry first) followed by every byte string of length 0..5 (thorough 0..8), with loop bound 2n+40 and input-controlled allocations <= 2n+16. (c) timestamp text: every string of 0..40 bytes through time.StringCodec.Read (C18_nopanic)",
+    "outside": "the JSON tokenizer on arbitrary schema text (library code, stubbed); allocation inside the real flate/snappy decoders; arbitrary byte strings longer than the stated lengths (a ten-byte varint does not fit in them: full-width lengths, counts, block sizes and selectors are supplied by the structured harnesses (c) instead, which is how the len+count overflow of a later array block was found)",
     "assumptions": A_CORE + A_FILE + A_TIME,
 }
 P["C07"] = {
